@@ -252,6 +252,9 @@ class SpecEnv:
         if isinstance(base, V):
             if base.kind == "ref":
                 h = self.st.heap[base.d]
+                if isinstance(h, HDict) and h.pairs is not None:
+                    from .builtins_theory import to_symbolic_dict
+                    to_symbolic_dict(self.interp, self.st, h)
                 if isinstance(h, HList):
                     if h.items is not None and isinstance(idx, int):
                         return h.items[idx]
@@ -496,6 +499,66 @@ def forall(env, lam):
 @ghost()
 def exists(env, lam):
     return _quant(env, lam, z3.Exists)
+
+
+@ghost()
+def forall_val(env, lam):
+    """quantification over python values (one variable)"""
+    _qcount[0] += 1
+    x = z3.Const(f"x?{_qcount[0]}", T.Val)
+    body = env.to_bool(lam(V("sym", t=x)))
+    pats = []
+    todo, seen = [body], set()
+    while todo:
+        e = todo.pop()
+        if e.get_id() in seen:
+            continue
+        seen.add(e.get_id())
+        if z3.is_quantifier(e):
+            todo.append(e.body())
+            continue
+        if z3.is_app(e):
+            if e.decl().kind() == z3.Z3_OP_SELECT and e.num_args() == 2 and z3.eq(e.arg(1), x) and \
+                    z3.is_const(e.arg(0)) and all(not z3.eq(e, p_) for p_ in pats):
+                pats.append(e)
+            todo.extend(e.children())
+    if pats:
+        return z3.ForAll([x], body, patterns=pats[:3])
+    return z3.ForAll([x], body)
+
+
+@ghost()
+def has_key(env, d, k):
+    st = env.st
+    if isinstance(d, V) and d.kind == "ref":
+        h = st.heap[d.d]
+        if isinstance(h, HDict):
+            if h.pairs is not None:
+                from .builtins_theory import to_symbolic_dict
+                to_symbolic_dict(env.interp, st, h)
+            return z3.Select(h.has, env.to_val(k))
+    raise SpecError("has_key needs a dict built by the unit")
+
+
+@ghost()
+def origin_idx(env, e):
+    return T.F_oidx(env.to_val(e))
+
+
+@ghost()
+def err_rank(env, e):
+    """position of a dict-item error in the documented order: item index first, key error before value error"""
+    from adaptix._internal.struct_trail import ItemKey as IK
+    top = trail_top(env, e)
+    return 2 * T.F_oidx(env.to_val(e)) + z3.If(T.F_cls(env.to_val(top)) == env.interp.reg.cls(IK), 0, 1)
+
+
+@ghost()
+def trail_top(env, e):
+    st = env.st
+    env.interp.ensure_trails(st)
+    et = env.to_val(e)
+    return V("sym", t=z3.Select(z3.Select(st.trail_arr, et), z3.Select(env.interp.trail0[0], et)))
 
 
 @ghost()
